@@ -54,14 +54,20 @@ RULES = {'call1': {1}, 'call2': {2}, 'call12': {1, 2}, 'always': 'all',
 VALUES = [0, 1, 2, 3, -1, 2.5, 10, 42, 'a', True, None, 7]
 
 
-def wrap(formula, kind):
+# names pycel does not implement; most of them exist as python builtins
+UNKNOWN_NAMES = ['NOSUCHFUNCTION', 'TYPE', 'HEX', 'FILTER', 'MAP', 'FORMAT',
+                 'LIST', 'ZIP', 'ID', 'SORTED']
+
+
+def wrap(formula, kind, site=0):
     kind = kind.split('!')[0]
     expr = formula[1:]
     if kind == 'unknown':
         # reference = the formula without the unknown function: a dependant
         # that returns a value although the site can not be calculated must
         # at least not have used a made-up value for it
-        return f'=NOSUCHFUNCTION({expr})', formula
+        name = UNKNOWN_NAMES[site % len(UNKNOWN_NAMES)]
+        return f'={name}({expr})', formula
     if kind.startswith('after-error'):
         return f'=(1/0)+VFAIL(1,{expr})', f'=(1/0)+({expr})'
     return f'=VFAIL(1,{expr})', formula
@@ -104,7 +110,7 @@ def check_case(rec, spec, site, kind, iterative, steps):
                 first[0] <= coord[0] <= last[0] and \
                 int(first[1:]) <= int(coord[1:]) <= int(last[1:])
         arr = next(a for a in spec_f['arrays'] if holds(a))
-        faulty, ref = wrap(arr['formula'], kind)
+        faulty, ref = wrap(arr['formula'], kind, site)
         arr['formula'] = faulty
         if ref is not None:
             next(a for a in spec_ref['arrays'] if holds(a))['formula'] = ref
@@ -115,7 +121,7 @@ def check_case(rec, spec, site, kind, iterative, steps):
         F = f'{sheet}!{first}'
         members.append(f'{sheet}!{arr["ref"]}')     # the range node itself
     else:
-        faulty, ref = wrap(spec['sheets'][sheet][coord], kind)
+        faulty, ref = wrap(spec['sheets'][sheet][coord], kind, site)
         spec_f['sheets'][sheet][coord] = faulty
         if ref is not None:
             spec_ref['sheets'][sheet][coord] = ref
@@ -211,7 +217,8 @@ def check_case(rec, spec, site, kind, iterative, steps):
             if event == 'eval' and (
                     excel_formula.cell is not None and
                     excel_formula.cell.address.address in site_cells or
-                    'nosuchfunction' in str(excel_formula).lower()):
+                    UNKNOWN_NAMES[site % len(UNKNOWN_NAMES)].lower() + '('
+                    in str(excel_formula.python_code).lower()):
                 site_evals[0] += 1
 
         def observe(addr):
